@@ -27,6 +27,8 @@ type Project struct {
 	// RootSpelling: how the path of the root file is written when the project is built from disk:
 	// "" clean absolute path | "dot" dir/./root | "slashes" dir//root | "updown" dir/sub/../root.
 	RootSpelling string `json:"root_spelling,omitempty"`
+	// BanSplit: the banned kinds are passed as one core.WithBannedDirectives option each instead of one option for all.
+	BanSplit bool `json:"ban_split,omitempty"`
 }
 
 func SingleFile(data []byte) *Project {
@@ -36,7 +38,7 @@ func SingleFile(data []byte) *Project {
 func (p *Project) RootBytes() []byte { return p.Files[p.Root] }
 
 func (p *Project) Clone() *Project {
-	q := &Project{Root: p.Root, Files: map[string][]byte{}, NoRoot: p.NoRoot, ViaPath: p.ViaPath, RootSpelling: p.RootSpelling}
+	q := &Project{Root: p.Root, Files: map[string][]byte{}, NoRoot: p.NoRoot, ViaPath: p.ViaPath, RootSpelling: p.RootSpelling, BanSplit: p.BanSplit}
 	for k, v := range p.Files {
 		q.Files[k] = append([]byte(nil), v...)
 	}
@@ -58,7 +60,7 @@ func (p *Project) Names() []string {
 // Hash is a stable digest of the project (used to count distinct cases).
 func (p *Project) Hash() string {
 	h := sha1.New()
-	fmt.Fprintf(h, "root=%s;noroot=%v;via=%v;ban=%s;sp=%s;", p.Root, p.NoRoot, p.ViaPath, strings.Join(p.Banned, ","), p.RootSpelling)
+	fmt.Fprintf(h, "root=%s;noroot=%v;via=%v;ban=%s;sp=%s;bs=%v;", p.Root, p.NoRoot, p.ViaPath, strings.Join(p.Banned, ","), p.RootSpelling, p.BanSplit)
 	for _, n := range p.Names() {
 		fmt.Fprintf(h, "%s:%d:", n, len(p.Files[n]))
 		h.Write(p.Files[n])
